@@ -727,10 +727,13 @@ pub fn build(quick: bool) -> Check {
         ids: if quick { vec![0, 253] } else { vec![0, 1, 251, 252, 253, 254, 255] },
         sizes: if quick { vec![2 * MAXP + 10] } else { vec![MAXP + 10, 2 * MAXP + 10, 3 * MAXP + 10] },
     }));
+    // the position of a multi-packet message relative to the wrap: every request id, so that each
+    // of its fragments carries each id once (255 and 0 among them)
+    families.push(Box::new(LargeResponse { ids: (0..=255).collect(), sizes: if quick { vec![MAXP + 10] } else { vec![MAXP + 10, 2 * MAXP + 10] } }));
     Check {
         id: "C05",
         level: "model_checking",
-        rule: "every command kind after every kind of previous exchange x request ids {0,1,42,127,254,255}; every sequence of 4 (thorough: 5) exchanges over 21 kinds, and of 5-6 (6-7) over the 10 statement kinds (two statements, long data, closes, a query, PING), (replies of 1..304 packets, shim and library errors, chained resultsets, PREPARE replies, unanswered commands) with per-position request ids around the wrap; request sequence id x response length (1 and 4..520 packets, text and binary), each followed by a second command with an unrelated id; handshake responses with every id; 2-, 3- (thorough: 4-) fragment requests starting at ids around the wrap, with reads ending at every subset of the fragment boundaries; responses whose single row spans 2..4 maximal packets; responses of 40 KiB..1 MiB in 5..2000 packets under transport writes of at most 5 / 1460 / 23359 / 65536 bytes; four responses re-run with exactly one transport write accepting 1 byte / half / all but one byte, for every write of the undisturbed run. Long scripted sessions: 130..4099 (thorough: up to 131101) ordinary commands of every kind on one connection in up to six mixes (even, prepare/close churn with growing ids, executions, long-data chunks, unanswered commands, text and library-answered commands) under several client/transport behaviours (pipelined, request ids advancing by 7, lock-step, 1..4093-byte reads, 7/11-byte writes), generated by a fixed rule, kept valid with the registry model and judged on the complete trace (callbacks with arguments, result, strict decode of every reply with its sequence ids). Oracle: packet i of a reply carries (last request id + 1 + i) mod 256. Non-trivial = request id != 0 (the only id the test clients use).".into(),
+        rule: "a row of two (thorough: also three) packets in a reply to a request with each sequence id 0..255 (every fragment carries every id once); every command kind after every kind of previous exchange x request ids {0,1,42,127,254,255}; every sequence of 4 (thorough: 5) exchanges over 21 kinds, and of 5-6 (6-7) over the 10 statement kinds (two statements, long data, closes, a query, PING), (replies of 1..304 packets, shim and library errors, chained resultsets, PREPARE replies, unanswered commands) with per-position request ids around the wrap; request sequence id x response length (1 and 4..520 packets, text and binary), each followed by a second command with an unrelated id; handshake responses with every id; 2-, 3- (thorough: 4-) fragment requests starting at ids around the wrap, with reads ending at every subset of the fragment boundaries; responses whose single row spans 2..4 maximal packets; responses of 40 KiB..1 MiB in 5..2000 packets under transport writes of at most 5 / 1460 / 23359 / 65536 bytes; four responses re-run with exactly one transport write accepting 1 byte / half / all but one byte, for every write of the undisturbed run. Long scripted sessions: 130..4099 (thorough: up to 131101) ordinary commands of every kind on one connection in up to six mixes (even, prepare/close churn with growing ids, executions, long-data chunks, unanswered commands, text and library-answered commands) under several client/transport behaviours (pipelined, request ids advancing by 7, lock-step, 1..4093-byte reads, 7/11-byte writes), generated by a fixed rule, kept valid with the registry model and judged on the complete trace (callbacks with arguments, result, strict decode of every reply with its sequence ids). Oracle: packet i of a reply carries (last request id + 1 + i) mod 256. Non-trivial = request id != 0 (the only id the test clients use).".into(),
         assumptions: vec!["sequence ids of server packets are read by the independent framer (refwire)".into()],
         bounds: json!({"max_response_packets": 520, "fragments": if quick {2} else {3}}),
         exhaustive: true,
